@@ -8,6 +8,7 @@ import (
 	"go/token"
 	"go/types"
 	"math/big"
+	"regexp"
 	"strconv"
 	"strings"
 
@@ -289,7 +290,7 @@ func (e *Env) evalIdent(name string) Value {
 		if v, ok := e.x.params[name]; ok {
 			return v
 		}
-		if as := e.x.allocsByName[name]; len(as) > 0 && (e.atReturn || e.loop != nil) {
+		if as := e.x.allocsByName[name]; len(as) > 0 {
 			// a local that has not been allocated on this path: its value is unconstrained
 			el := as[0].Type().Underlying().(*types.Pointer).Elem()
 			e.x.ck.qctr++
@@ -579,13 +580,13 @@ func (e *Env) quant(q string, args []ast.Expr) Value {
 	default:
 		return e.fail("%s takes (var, body) or (var, lo, hi, body)", q)
 	}
-	var t string
+	var qbody Term
 	if q == "forall" {
-		t = fmt.Sprintf("(forall ((%s Int)) %s)", vname, mkImplies(rng, body).S)
+		qbody = mkImplies(rng, body)
 	} else {
-		t = fmt.Sprintf("(exists ((%s Int)) %s)", vname, mkAnd(rng, body).S)
+		qbody = mkAnd(rng, body)
 	}
-	return scalar(types.Typ[types.Bool], Term{t, sBool})
+	return scalar(types.Typ[types.Bool], Term{mkQuant(q, vname, qbody.S), sBool})
 }
 
 func (e *Env) evalCall(n *ast.CallExpr) Value {
@@ -619,6 +620,16 @@ func (e *Env) evalCall(n *ast.CallExpr) Value {
 		inner := e.sub(e.oldState)
 		inner.atEntry = !e.callee
 		return inner.eval(n.Args[0])
+	case "cur":
+		// cur(x): the current value of a parameter or local (parameters are mutable in Go)
+		id, ok := n.Args[0].(*ast.Ident)
+		if !ok {
+			return e.fail("cur() takes an identifier")
+		}
+		if v, ok := e.lookupLocal(id.Name); ok {
+			return v
+		}
+		return e.eval(n.Args[0])
 	case "atcall":
 		// atcall(e): value of e just before the call (in `on call` handlers)
 		if e.callPre == nil {
@@ -734,7 +745,7 @@ func (e *Env) evalCall(n *ast.CallExpr) Value {
 		q := fmt.Sprintf("i!q%d", e.x.ck.qctr)
 		ea := e.elemValue(a, Term{q, sInt}).one()
 		eb := e.elemValue(b, Term{q, sInt}).one()
-		body := fmt.Sprintf("(forall ((%s Int)) (=> (and (<= 0 %s) (< %s %s)) (= %s %s)))", q, q, q, a.sliceLen().S, ea.S, eb.S)
+		body := mkQuant("forall", q, fmt.Sprintf("(=> (and (<= 0 %s) (< %s %s)) (= %s %s))", q, q, a.sliceLen().S, ea.S, eb.S))
 		return scalar(bt, mkAnd(mkEq(a.sliceLen(), b.sliceLen()), Term{body, sBool}))
 	case "int", "int64", "int32", "int16", "int8", "uint", "uint64", "uint32", "uint16", "uint8", "byte", "uintptr":
 		v := e.eval(n.Args[0])
@@ -794,7 +805,7 @@ func (e *Env) evalCall(n *ast.CallExpr) Value {
 		e.x.ck.qctr++
 		q := fmt.Sprintf("j!q%d", e.x.ck.qctr)
 		ev := e.elemValue(sl, Term{q, sInt})
-		body := fmt.Sprintf("(exists ((%s Int)) (and (<= 0 %s) (< %s %s) %s))", q, q, q, sl.sliceLen().S, e.specEqual(ev, v).S)
+		body := mkQuant("exists", q, fmt.Sprintf("(and (<= 0 %s) (< %s %s) %s)", q, q, sl.sliceLen().S, e.specEqual(ev, v).S))
 		return scalar(bt, Term{body, sBool})
 	case "purecallb", "purecalli":
 		// purecallb("callee name", args...): the uninterpreted function standing for a callee declared pure
@@ -1029,4 +1040,35 @@ func (e *Env) pureCall(pkgPath, name string, args []ast.Expr) (Value, bool) {
 		out.L[k] = e.x.uf(fmt.Sprintf("pure:%s:%d", full, k), lf.Sort, flat...)
 	}
 	return out, true
+}
+
+// mkQuant builds a quantified formula over one Int variable. When the variable occurs as
+// (+ OFF v) in array index positions, the formula is re-parametrised over the absolute index
+// j = OFF + v (a bijection, so the meaning is unchanged): E-matching cannot use triggers that
+// contain arithmetic, and the absolute form gives it the arithmetic-free trigger (select a j).
+func mkQuant(q, v, body string) string {
+	re := regexp.MustCompile(`\(\+ ((?:\|[^|]*\||[^\s()]+)|\((?:[^()]|\([^()]*\))*\)) ` + regexp.QuoteMeta(v) + `\)`)
+	counts := map[string]int{}
+	for _, m := range re.FindAllStringSubmatch(body, -1) {
+		if !strings.Contains(m[1], v) {
+			counts[m[1]]++
+		}
+	}
+	best, n := "", 0
+	for k, c := range counts {
+		if c > n || (c == n && k < best) {
+			best, n = k, c
+		}
+	}
+	if n == 0 {
+		return fmt.Sprintf("(%s ((%s Int)) %s)", q, v, body)
+	}
+	j := v + "!abs"
+	ph := "\x00ABS\x00"
+	out := strings.ReplaceAll(body, "(+ "+best+" "+v+")", ph)
+	// remaining occurrences of v (delimited) become (- j OFF)
+	reV := regexp.MustCompile(regexp.QuoteMeta(v) + `([\s)])`)
+	out = reV.ReplaceAllString(out, "(- "+j+" "+best+")$1")
+	out = strings.ReplaceAll(out, ph, j)
+	return fmt.Sprintf("(%s ((%s Int)) %s)", q, j, out)
 }
